@@ -2,6 +2,7 @@
 from __future__ import annotations
 
 import ast
+import copy
 import itertools
 
 from ..dtable import evaluate as bool_eval, atoms_of
@@ -365,12 +366,12 @@ def run(ctx):
                        'native cross-family < raises TypeError in Python 3 (incl. date vs datetime)',
                        'bool is a subclass of int, datetime of date; numeric_types/text_type/binary_type as in petl.compat (py3 branch)']
     rep.trusted = ['frozen table of native comparability of the 12 type classes', 'mini evaluator (rules/c04.py)']
-    r41(ctx, rep)
-    r42(ctx, rep)
-    r43(ctx, rep)
-    r44(ctx, rep)
+    ctx.attempt(r41, ctx, rep)
+    ctx.attempt(r42, ctx, rep)
+    ctx.attempt(r43, ctx, rep)
+    ctx.attempt(r44, ctx, rep)
     rep.rule('R4.5', 'issorted decides with the operator selected from reverse / strict on every branch')
-    r45(ctx, rep)
+    ctx.attempt(r45, ctx, rep)
 
 
 # ------------------------------------------------------------------------ R4.1
@@ -389,6 +390,41 @@ def r41(ctx, rep):
         _table_for(ctx, rep, m, ci)
 
 
+def _wraps_sequences(init, ci):
+    """whatever the spelling: on the path where the value is a list / tuple, self.obj is assigned the sequence of
+    Comparable(element) over the elements of the value (sequence algebra of ladder.py)"""
+    from ..ladder import paths, seq_eval, seq_exec, atoms_in, test_defs
+    a = init.node.args
+    if len(a.args) < 2:
+        return False
+    param = a.args[1].arg
+    defs = test_defs(init.node)
+    tests = []
+    for n in ast.walk(init.node):
+        if isinstance(n, (ast.If, ast.IfExp)):
+            for at in atoms_in(n.test, defs):
+                if at.startswith('isinstance(%s,' % param) and 'list' in at and 'tuple' in at and at not in tests:
+                    tests.append(at)
+    if len(tests) != 1:
+        return False
+    names = ('Comparable(_)', '%s(_)' % ci.name)
+    ok = False
+    for p in paths(init.node.body, {tests[0]: True}, defs):
+        if p.kind == 'raise':
+            continue
+        env = seq_exec(p.effects, {}, {tests[0]: True}, defs)
+        stored = [s for s in p.effects if isinstance(s, ast.Assign) and len(s.targets) == 1 and
+                  norm(s.targets[0]) == 'self.obj']
+        if not stored:
+            return False
+        v = seq_eval(stored[-1].value, env, {tests[0]: True}, defs)
+        if len(v) == 1 and v[0][0] == param and v[0][1] in names:
+            ok = True
+        else:
+            return False
+    return ok
+
+
 def _table_for(ctx, rep, m, ci):
     lt = ci.methods.get('__lt__')
     eq = ci.methods.get('__eq__')
@@ -405,6 +441,8 @@ def _table_for(ctx, rep, m, ci):
                         isinstance(s.args[0], ast.GeneratorExp) and isinstance(s.args[0].elt, ast.Call) and \
                         norm(s.args[0].elt.func) in ('Comparable', ci.name):
                     ok_init = True
+    if not ok_init:
+        ok_init = _wraps_sequences(init, ci)
     if ok_init:
         rep.held('R4.1', init, 'wrap sequences', 'lists and tuples are stored as tuple(Comparable(o) for o in obj)', init.node)
     else:
@@ -550,6 +588,15 @@ def r42(ctx, rep):
         for name, op in ops.items():
             fn = ci.methods.get(name)
             if fn is None:
+                eff = _class_level_method(ctx, ci, name)
+                if eff is not None:
+                    l, o, r, where = eff
+                    if o is op and l == 'self.key' and r == 'other.key':
+                        rep.held('R4.2', (ci.module.name, ci.name), name, 'compares keys only (%s)' % where, ci.node)
+                    else:
+                        rep.violated('R4.2', (ci.module.name, ci.name), name,
+                                     '%s.%s (%s) is not the namesake comparison of the keys alone' % (ci.name, name, where), ci.node)
+                    continue
                 rep.violated('R4.2', (ci.module.name, ci.name), name,
                              '%s.%s is missing: the inherited tuple comparison looks at (key, obj), so rows with equal '
                              'keys are ordered by their content and the merge is no longer stable' % (ci.name, name), ci.node)
@@ -564,6 +611,70 @@ def r42(ctx, rep):
                 rep.violated('R4.2', fn, name, '%s.%s must be `self.key %s other.key`'
                              % (ci.name, name, {ast.Eq: '==', ast.Lt: '<', ast.LtE: '<=', ast.NotEq: '!=', ast.Gt: '>', ast.GtE: '>='}[op]),
                              fn.node)
+
+
+_OPERATOR_FN = {'eq': ast.Eq, 'lt': ast.Lt, 'le': ast.LtE, 'ne': ast.NotEq, 'gt': ast.Gt, 'ge': ast.GtE,
+                '__eq__': ast.Eq, '__lt__': ast.Lt, '__le__': ast.LtE, '__ne__': ast.NotEq, '__gt__': ast.Gt, '__ge__': ast.GtE}
+
+
+def _class_level_method(ctx, ci, name):
+    """A comparison method given by a class-level assignment: `__lt__ = lambda self, other: ...` or
+    `__lt__ = factory(operator.lt)` where the factory returns a closure `def m(self, other): return compare(a, b)`.
+    Returns (left text, operator class, right text, description) with the two parameters renamed self / other, or None."""
+    val = None
+    for st in ci.node.body:
+        if isinstance(st, ast.Assign) and len(st.targets) == 1 and isinstance(st.targets[0], ast.Name) and \
+                st.targets[0].id == name:
+            val = st.value
+    if val is None:
+        return None
+
+    def shape(params, expr, binding, where):
+        if len(params) != 2:
+            return None
+        ren = {params[0]: 'self', params[1]: 'other'}
+
+        def txt(e):
+            e = copy.deepcopy(e)
+            for x in ast.walk(e):
+                if isinstance(x, ast.Name) and x.id in ren:
+                    x.id = ren[x.id]
+            return norm(e)
+        if isinstance(expr, ast.Compare) and len(expr.ops) == 1:
+            return txt(expr.left), type(expr.ops[0]), txt(expr.comparators[0]), where
+        if isinstance(expr, ast.Call) and len(expr.args) == 2 and not expr.keywords:
+            f = expr.func
+            if isinstance(f, ast.Name) and f.id in binding:
+                f = binding[f.id]
+            fname = norm(f)
+            short = fname[len('operator.'):] if fname.startswith('operator.') else None
+            if short in _OPERATOR_FN:
+                return txt(expr.args[0]), _OPERATOR_FN[short], txt(expr.args[1]), where
+        return None
+    if isinstance(val, ast.Lambda):
+        return shape([a.arg for a in val.args.args], val.body, {}, 'lambda')
+    if isinstance(val, ast.Call) and isinstance(val.func, ast.Name) and not val.keywords:
+        fac = ci.module.functions.get(val.func.id)
+        if fac is None:
+            return None
+        fparams = [a.arg for a in fac.node.args.args]
+        if len(fparams) != len(val.args):
+            return None
+        binding = dict(zip(fparams, val.args))
+        body = [b for b in fac.node.body if not (isinstance(b, ast.Expr) and isinstance(b.value, ast.Constant))]
+        inner = [b for b in body if isinstance(b, ast.FunctionDef)]
+        rets = [b for b in body if isinstance(b, ast.Return)]
+        if len(inner) == 1 and len(rets) == 1 and len(body) == 2 and isinstance(rets[0].value, ast.Name) and \
+                rets[0].value.id == inner[0].name:
+            ib = [b for b in inner[0].body if not (isinstance(b, ast.Expr) and isinstance(b.value, ast.Constant))]
+            if len(ib) == 1 and isinstance(ib[0], ast.Return) and ib[0].value is not None:
+                return shape([a.arg for a in inner[0].args.args], ib[0].value, binding,
+                             '%s(%s)' % (val.func.id, ', '.join(norm(a) for a in val.args)))
+        if len(body) == 1 and isinstance(body[0], ast.Return) and isinstance(body[0].value, ast.Lambda):
+            lam = body[0].value
+            return shape([a.arg for a in lam.args.args], lam.body, binding,
+                         '%s(%s)' % (val.func.id, ', '.join(norm(a) for a in val.args)))
+    return None
 
 
 def _derived_table(ctx, rep, ci, fn, name, f):
@@ -703,6 +814,27 @@ def r43(ctx, rep):
         if fn.cls is not None and fn.cls.name in ('_Keyed',) and real:
             continue       # judged by R4.2
         fa, events = analysed(ctx, fn)
+        # a merge that advances group by group: the groups are cut where the key changes under ==, the merge compares the
+        # group keys with < / >: both must be the same (Comparable) notion of key, e.g. [1, 2] and (1, 2) are equal keys
+        if any(ev.kind == 'order' for ev in events):
+            for ev in events:
+                if ev.kind == 'call' and any(nm in ('itertools.groupby',) for nm in ev.info['names']):
+                    args = ev.info['args']
+                    kw = ev.info.get('kw') or {}
+                    k = kw.get('key') if isinstance(kw, dict) and kw.get('key') is not None else (args[1] if len(args) > 1 else None)
+                    c = norm(ev.node)[:70]
+                    if real:
+                        n_sites += 1
+                    if cmp_key(k):
+                        rep.held('R4.3', fn, c, 'groups are cut by a Comparable key', ev.node)
+                    elif k is None or all(a == TOP or a[0] == 'ARG' for a in k):
+                        rep.undecided('R4.3', fn, c, 'group key of unknown provenance', ev.node)
+                    else:
+                        rep.violated('R4.3', fn, c,
+                                     'the groups the merge advances by are cut by the native == of the raw key (%s) while the '
+                                     'merge orders the group keys with Comparable: keys that are equal under the ordering '
+                                     '([1, 2] and (1, 2)) are split into separate groups and joined as if they differed'
+                                     % fmt_value(k), ev.node)
         for ev in events:
             if ev.kind == 'order':
                 l, r = ev.info['left'], ev.info['right']
